@@ -87,3 +87,13 @@ func indexOf(s, sub string) int {
 	}
 	return -1
 }
+
+func init() {
+	debugHooks["ssa"] = func(P *Program, M *Model, arg string) {
+		for _, fn := range P.ModFuncs {
+			if containsStr(FuncName(fn), arg) {
+				fn.WriteTo(os.Stdout)
+			}
+		}
+	}
+}
